@@ -79,6 +79,16 @@ def split (raw : Bytes) : Option Split :=
         some { scheme := scheme, authority := some auth, path := path, rawQuery := rawQuery, forceQuery := forceQuery, fragment := frag }
       else some { scheme := scheme, path := rest, rawQuery := rawQuery, forceQuery := forceQuery, fragment := frag }
 
+def isHex (c : Nat) : Bool := (48 ≤ c && c ≤ 57) || (65 ≤ c && c ≤ 70) || (97 ≤ c && c ≤ 102)
+
+/-- `unescape` fails ("invalid URL escape") when a `%` is not followed by two hex digits
+    (path mode; also used by Go for the fragment) -/
+def escapesOk : Bytes → Bool
+  | [] => true
+  | 37 :: a :: b :: t => isHex a && isHex b && escapesOk t
+  | 37 :: _ => false
+  | _ :: t => escapesOk t
+
 /-- what re-parsing the rendered URL (`http.NewRequestWithContext(…, u.String(), …)`) leaves of a
     raw query: `URL.String` writes RawQuery verbatim, `url.Parse` cuts at the first `#`
     (every `#` in the other components is escaped by `String`). -/
